@@ -1,6 +1,7 @@
 import Driver.Util
 import Torf.Spec.FileSize
 import Torf.Spec.FileSizeHistory
+import Torf.Model.FileSizePath
 open Lean Torf Torf.FileSize
 namespace Driver.C20
 
@@ -164,10 +165,99 @@ def history (j : Json) : Except String Json := do
     metas := metaStep metas op
   return jobj [("steps", Json.arr out)]
 
+/-! ### spelled content paths (Torf.Model.FileSizePath) -/
+
+def parseInode (j : Json) : Except String Reuse.Node := do
+  let k ← getStr j "k"
+  match k with
+  | "f" => return .file (← getNat j "size") true 0
+  | "d" =>
+    let es ← (← getArr j "e").mapM fun e => do
+      let a ← e.getArr?
+      let n ← (a[0]!).getStr?
+      let i ← (a[1]!).getNat?
+      pure (n, i)
+    return .dir true true es
+  | "l" => return .link (Torf.Paths.parse (← getStr j "t"))
+  | _ => throw s!"unknown node kind {k}"
+
+/-- well-formed inode table: the root is a directory; entries have plain, pairwise distinct names
+    and point into the table; link targets are not empty -/
+def wfInodes (fs : Reuse.FS) : Bool :=
+  (match fs[0]? with | some (Reuse.Node.dir ..) => true | _ => false) &&
+  fs.all fun (n : Reuse.Node) => match n with
+    | .dir _ _ es => es.all (fun e => plain e.1 && decide (e.2 < fs.length)) &&
+        (es.map (·.1)).eraseDups.length == es.length
+    | .link t => !(t.comps.isEmpty) && (t.abs || t.comps.headD "" != "")
+    | _ => true
+
+def isLoop : Except Reuse.OsErr Reuse.Loc → Bool
+  | .error .loop => true
+  | _ => false
+
+/-- op `c20.spelling` : {nodes, cwd : "/abs/physical/path", dirTotals : [[ino, total]…], path : text,
+    meta, cb, measured : [{path, kind, n}…]}
+    ↦ model = `verifyFilesizeAt false` in the world of the inode table;
+      spec  = `spec` on the tree at the location the OS resolves `path` to (`treeAt`, full link
+              budget; the all-missing tree when `path` does not resolve);
+      specMeasured = `spec` on what the harness measured through the OS with the spelling;
+      variant = `verifyFilesizeAt true` (normpath first; statistics only);
+      hyp = WF ∧ plain components ∧ well-formed table ∧ no ELOOP in any lookup ∧ (`path` resolves,
+            or neither it nor its tidied form does);
+      paths = the reported file-system path of every listed file -/
+def spelling (j : Json) : Except String Json := do
+  let fs ← (← getArr j "nodes").mapM parseInode
+  let w0 : Reuse.World := ⟨fs, [], 0, fun _ => (.undecodable, fun _ => .missing)⟩
+  let cwdP := Torf.Paths.parse (← getStr j "cwd")
+  let cwd ← match Reuse.resolve w0 cwdP with
+    | .ok (.dir st) => pure st
+    | _ => throw "cwd does not resolve to a directory"
+  let w : Reuse.World := { w0 with cwd := cwd }
+  let totals ← (← getArr j "dirTotals").mapM fun e => do
+    let a ← e.getArr?
+    pure ((← (a[0]!).getNat?), (← (a[1]!).getNat?))
+  let dt : Nat → Nat := fun i => (totals.lookup i).getD 0
+  let p := Torf.Paths.parse (← getStr j "path")
+  let t ← parseMeta (← j.getObjVal? "meta")
+  let cb ← parseCb j
+  let measured := mkFS (← (← getArr j "measured").mapM parseEntry)
+  let model := verifyFilesizeAt false w dt t p cb
+  let variant := verifyFilesizeAt true w dt t p cb
+  let res := Reuse.resolve w p
+  let tidy := Reuse.resolve w (fsPath p [])
+  let tree : FS := match res with
+    | .ok loc => treeAt fs dt Reuse.maxLinks loc
+    | .error _ => fun _ => .missing
+  let sp := spec t tree cb
+  let spm := spec t measured cb
+  let noLoop := !isLoop res && t.listed.all fun f =>
+    !isLoop (Reuse.resolve w (fsPath p f.path)) &&
+      (match res with
+        | .ok (.dir st) => !isLoop (Reuse.walk fs Reuse.maxLinks st f.path)
+        | _ => true)
+  let resolves := match res, tidy with
+    | .ok _, _ => true
+    | .error _, .error _ => true
+    | _, _ => false
+  let hyp := decide (WF t) && plainMeta t && wfInodes fs && noLoop && resolves
+  let kind := match res with
+    | .ok (.dir _) => "dir"
+    | .ok (.file _) => "file"
+    | .error _ => "error"
+  return jobj [("model", outJson model), ("spec", outJson sp), ("specMeasured", outJson spm),
+               ("variant", outJson variant), ("modelEqSpec", jbool (model == sp)),
+               ("specEqMeasured", jbool (sp == spm)), ("variantDiffers", jbool (variant != model)),
+               ("hyp", jbool hyp), ("resolves", jstr kind),
+               ("errs", jarr (t.listed.map fun f => jopt errJson (errOf tree f))),
+               ("singleAtDir", jbool (singleAtDir t tree)), ("valid", jbool (validateCore t)),
+               ("presentExact", jbool (allPresentExact t tree)),
+               ("paths", jarr (t.listed.map fun f => jstr (Torf.Paths.strOf (reportedPath p f))))]
+
 def handle (op : String) (j : Json) : Except String Json :=
   match op with
   | "c20.verify" => verify j
   | "c20.history" => history j
+  | "c20.spelling" => spelling j
   | _ => throw s!"unknown op {op}"
 
 end Driver.C20
